@@ -340,3 +340,45 @@ class _CallOrigin:
 
 def _call_origin(t):
     return _CallOrigin(t)
+
+
+# ------------------------------------------------------------------------------------------------
+def pair_escapes(body, acq_bb, release_bbs, summ=None, extra_avoid=()):
+    """PAIR: every non-unwind, non-cancel path from after the acquire at acq_bb to a Return passes a
+    block in release_bbs. Yields (key, message, path) for every distinct escaping exit.
+    The acquire's own `?` (acquire failed => nothing acquired) is not an escape; a `?` on a callee
+    that is NoErr by its MIR (dead Err arm) is not an escape."""
+    c = cfg_of(body)
+    rets = c.return_blocks()
+    acq_t = body.blocks[acq_bb].term
+    avoid = set(extra_avoid)
+    info = {}
+    for e in c.error_exit_blocks():
+        src = question_mark_source(body, e)
+        info[e] = src
+        if src is acq_t:
+            avoid.add(e)
+        elif src is not None and summ is not None and summ.no_err(src.best_callee()):
+            avoid.add(e)
+    out = []
+    seen = set()
+    while True:
+        p = c.escapes(acq_bb, release_bbs, rets, after=True, avoid=avoid)
+        if p is None:
+            break
+        errs = [x for x in p if x in info]
+        if errs:
+            e = errs[0]
+            src = info[e]
+            nm = src.best_callee() if src is not None else "unknown"
+            avoid.add(e)
+            key = "?:" + nm
+            if key in seen:
+                continue
+            seen.add(key)
+            line = src.line if src is not None else body.blocks[e].term.line
+            out.append((key, "`?` on %s at %s exits between acquire (line %s) and release" % (nm, body.loc(line), acq_t.line), p))
+        else:
+            out.append(("normal-path", "a non-error path from the acquire at line %s reaches Return without the release: blocks %s" % (acq_t.line, p), p))
+            break
+    return out
